@@ -21,7 +21,7 @@ def run(tier, replay=None):
     _cat.report_pipeline(rep, builts, total, "dec")
     # kinds: every primitive / representation kind with the full boundary value set, on more cells
     from ..enum import kinds
-    kcells = cxx.QUICK_CELLS if tier == "quick" else cxx.ALL_CELLS
+    kcells = cxx.CODEC_CELLS if tier == "quick" else cxx.ALL_CELLS
     ks = [(kinds.kinds_schema(bo), None) for bo in ("littleEndian", "bigEndian")]
     ks = [(s, [m.name for m in s.msgs]) for s, _ in ks]
     kb = pipeline.prepare("kinds-" + tier, ks, kcells)
